@@ -315,3 +315,48 @@ Proof.
   split; [exact H|]. split; [reflexivity|]. split; [reflexivity|].
   split; [vm_compute; discriminate|]. now apply model_history_ok.
 Qed.
+
+(** ---- success is insertion-order independent as well (Proofs/C02_Success.v) ---- *)
+From Elfi Require Import Proofs.C02_Success.
+
+(** The topological check of the compiler accepts a build iff it accepts every other build. *)
+Theorem C02_topo_check_insertion_independent :
+  forall src src', wfsrc src -> same_model src src' -> topo_ok src = true -> topo_ok src' = true.
+Proof. exact topo_ok_perm. Qed.
+Print Assumptions C02_topo_check_insertion_independent.
+
+(** Compilation (five compilers) succeeds on one build iff it succeeds on every other build. *)
+Theorem C02_compile_success_insertion_independent :
+  forall src src' outs g,
+    wfsrc src -> same_model src src' -> compile src outs = Ok g -> exists g', compile src' outs = Ok g'.
+Proof. exact compile_success_insertion_independent. Qed.
+Print Assumptions C02_compile_success_insertion_independent.
+
+(** Execution succeeds on a net as soon as it succeeds on a net of the same shape (which nodes carry
+    an output / which operation), permuted edges, the same outputs and the same sort order. *)
+Theorem C02_execute_success_shape :
+  forall g g' r,
+    sheq g g' -> Permutation (c_edges g) (c_edges g') -> c_outputs g = c_outputs g' -> sort_order g = sort_order g' ->
+    execute g empty_cache = Ok r -> exists r', execute g' empty_cache = Ok r'.
+Proof. exact execute_success. Qed.
+Print Assumptions C02_execute_success_shape.
+
+(** If [generate] succeeds on one build of a model, it succeeds on every other build ... *)
+Theorem C02_generate_success_insertion_independent :
+  forall src src' outs W out log,
+    wfsrc src -> same_model src src' ->
+    NoDup (map fst W) -> (forall k, In k (map fst W) -> ~ In k inames) -> outputs_wf src outs ->
+    params_distinct src ->
+    generate src outs W = Ok (out, log) -> exists out' log', generate src' outs W = Ok (out', log').
+Proof. exact generate_success_insertion_independent. Qed.
+Print Assumptions C02_generate_success_insertion_independent.
+
+(** ... and returns the same values and the same call order: no hypothesis on the second build. *)
+Theorem C02_generate_same_insertion_independent :
+  forall src src' outs W out log,
+    wfsrc src -> same_model src src' ->
+    NoDup (map fst W) -> (forall k, In k (map fst W) -> ~ In k inames) -> outputs_wf src outs ->
+    params_distinct src ->
+    generate src outs W = Ok (out, log) -> generate src' outs W = Ok (out, log).
+Proof. exact generate_same_insertion_independent. Qed.
+Print Assumptions C02_generate_same_insertion_independent.
